@@ -32,14 +32,100 @@ def _thing_name(e):
     return None
 
 
+def _once_bound(fnode, params=()):
+    """local name -> (value, Assign statement) for the names of a function
+    which are bound exactly once, by a plain `name = value` (def-use: a test
+    on such a name is a test on the value)"""
+    stores = {}
+    for n in walk(fnode):
+        if isinstance(n, ast.Name) and isinstance(n.ctx, (ast.Store, ast.Del)):
+            stores[n.id] = stores.get(n.id, 0) + 1
+        elif isinstance(n, ast.ExceptHandler) and n.name:
+            stores[n.name] = stores.get(n.name, 0) + 1
+    out = {}
+    for n in walk(fnode):
+        if isinstance(n, ast.Assign) and len(n.targets) == 1 and \
+                isinstance(n.targets[0], ast.Name):
+            nm = n.targets[0].id
+            if stores.get(nm) == 1 and nm not in params:
+                out[nm] = (n.value, n)
+    return out
+
+
+def _deref(e, once, depth=4):
+    """the expression a once-bound local stands for"""
+    while isinstance(e, ast.Name) and e.id in once and depth:
+        e = once[e.id][0]
+        depth -= 1
+    return e
+
+
+def _flip(lab):
+    return 'F' if lab == 'T' else 'T'
+
+
+def _canceled_label(e, var, once, depth=4):
+    """(edge label taken when self.is_canceled(var) returned True, statement
+    that evaluates the call or None if the test itself does) for a test
+    expression e; None if e does not consult is_canceled(var).  Understands
+    the call itself, `not`, comparison with a constant, and once-bound locals
+    holding any of these (hoisted check)."""
+    if isinstance(e, ast.Name) and e.id in once and depth:
+        val, stmt = once[e.id]
+        r = _canceled_label(val, var, once, depth - 1)
+        if r is None:
+            return None
+        return (r[0], r[1] if r[1] is not None else stmt)
+    if isinstance(e, ast.Call):
+        if call_name(e) == 'self.is_canceled' and e.args and \
+                isinstance(e.args[0], ast.Name) and e.args[0].id == var:
+            return ('T', None)
+    if isinstance(e, ast.UnaryOp) and isinstance(e.op, ast.Not):
+        r = _canceled_label(e.operand, var, once, depth)
+        return None if r is None else (_flip(r[0]), r[1])
+    if isinstance(e, ast.Compare) and len(e.ops) == 1 and \
+            isinstance(e.comparators[0], ast.Constant):
+        r = _canceled_label(e.left, var, once, depth)
+        if r is not None:
+            pos = isinstance(e.ops[0], (ast.Is, ast.Eq))
+            same = bool(e.comparators[0].value) == pos
+            return (r[0] if same else _flip(r[0]), r[1])
+    for c in calls_in(e):
+        if call_name(c) == 'self.is_canceled' and c.args and \
+                isinstance(c.args[0], ast.Name) and c.args[0].id == var:
+            return ('T', None)
+    return None
+
+
+def cancel_checks(f, g, var):
+    """{test node id: (label on which the task was found canceled, id of the
+    node that evaluates is_canceled(var))}"""
+    once = _once_bound(f.node, f.params)
+    by_stmt = {id(n.ast): n.id for n in g.stmt_nodes()}
+    out = {}
+    for n in g.nodes:
+        if n.kind != 'test':
+            continue
+        r = _canceled_label(n.ast, var, once)
+        if r is not None:
+            out[n.id] = (r[0], by_stmt.get(id(r[1]), n.id)
+                         if r[1] is not None else n.id)
+    return out
+
+
 def pair_states(prog, f, g, start, var, stop=None, stop_edge=None,
-                count_is_canceled=True, callee_effects=None):
+                count_is_canceled=True, callee_effects=None, skip=()):
     """explore from start; state = (pubs, hands, target_set) for thing `var`.
     callee_effects: {callee qualname: (pubs, hands)} applied at resolved self
-    calls with var as argument (interprocedural step)."""
+    calls with var as argument (interprocedural step).  skip: edges
+    (src, dst, label) that are not real paths."""
     callee_effects = callee_effects or {}
+    checks = cancel_checks(f, g, var) if count_is_canceled else {}
+    skip = set(skip)
 
     def transfer(node, edge, st):
+        if skip and (edge.src, edge.dst, edge.label) in skip:
+            return None
         if edge.label == 'exc':
             return st
         p, h, t = st
@@ -66,19 +152,11 @@ def pair_states(prog, f, g, start, var, stop=None, stop_edge=None,
                             [k.value for k in c.keywords]):
                         dp, dh = callee_effects[cn]
                         p, h = min(2, p + dp), min(2, h + dh)
-        elif node.kind == 'test' and count_is_canceled:
-            a = node.ast
-            for c in calls_in(a):
-                if call_name(c) == 'self.is_canceled' and c.args and \
-                        isinstance(c.args[0], ast.Name) and \
-                        c.args[0].id == var:
-                    truth = True
-                    if isinstance(a, ast.Compare) and len(a.ops) == 1 and \
-                            isinstance(a.comparators[0], ast.Constant):
-                        pos = isinstance(a.ops[0], (ast.Is, ast.Eq))
-                        truth = bool(a.comparators[0].value) == pos
-                    if (edge.label == 'T') == truth:
-                        h = min(2, h + 1)
+        elif node.kind == 'test' and node.id in checks:
+            # BaseComponent.is_canceled hands the task on as CANCELED exactly
+            # when it returns True
+            if edge.label == checks[node.id][0]:
+                h = min(2, h + 1)
         return (p, h, t)
     return Exploration(g, start, (0, 0, False), transfer, stop=stop,
                        stop_edge=stop_edge)
@@ -429,24 +507,171 @@ def _work_handler(prog, rep, rid, f, label, collector=False):
 # ------------------------------------------------------------------------------
 # R07.2  ownership arbitration
 #
-def _arbitration(prog, f, g):
-    """[(with ast, lock, test node id, leave label, container, del node id)]"""
+def _is_pop_default(e):
+    return isinstance(e, ast.Call) and isinstance(e.func, ast.Attribute) and \
+        e.func.attr == 'pop' and len(e.args) == 2 and not e.keywords
+
+
+def _owner_test(e, once, depth=4):
+    """decompose a test that decides ownership of a uid.  Returns
+    (kind, leave label, container, key, statement evaluating it or None):
+      kind 'member': `key [not] in cont`              (removal follows)
+      kind 'atomic': `cont.pop(key, None) [is [not] None]`  (test-and-remove in
+                     one step; the removed value is a task dict, never falsy)
+    `leave` is the edge label taken when the uid is NOT (no longer) registered.
+    Understands `not`, and once-bound locals holding the expression."""
+    if isinstance(e, ast.Name) and e.id in once and depth:
+        val, stmt = once[e.id]
+        r = _owner_test(val, once, depth - 1)
+        if r is None:
+            return None
+        return r[:4] + (r[4] if r[4] is not None else stmt,)
+    if isinstance(e, ast.UnaryOp) and isinstance(e.op, ast.Not):
+        r = _owner_test(e.operand, once, depth)
+        return None if r is None else (r[0], _flip(r[1])) + r[2:]
+    if isinstance(e, ast.Compare) and len(e.ops) == 1:
+        op = e.ops[0]
+        if isinstance(op, (ast.In, ast.NotIn)):
+            return ('member', 'T' if isinstance(op, ast.NotIn) else 'F',
+                    unparse(e.comparators[0]), unparse(e.left), None)
+        c = e.comparators[0]
+        if isinstance(op, (ast.Is, ast.IsNot, ast.Eq, ast.NotEq)):
+            # cont.pop(key, D) compared with the same default / sentinel D
+            left, stmt, d = e.left, None, depth
+            while isinstance(left, ast.Name) and left.id in once and d:
+                left, stmt = once[left.id]
+                d -= 1
+            if _is_pop_default(left) and _plain(left.args[1]) and \
+                    unparse(left.args[1]) == unparse(c):
+                gone_on = 'T' if isinstance(op, (ast.Is, ast.Eq)) else 'F'
+                return ('atomic', gone_on, unparse(left.func.value),
+                        unparse(left.args[0]), stmt)
+        return None
+    if _is_pop_default(e) and _falsy_const(e.args[1]):
+        # truth of the removed value: a task dict is never empty
+        return ('atomic', 'F', unparse(e.func.value), unparse(e.args[0]), None)
+    return None
+
+
+def _truthy_const(e):
+    return isinstance(e, ast.Constant) and bool(e.value)
+
+
+def _falsy_const(e):
+    return e is None or (isinstance(e, ast.Constant) and not e.value)
+
+
+def _disown_helper(prog, f, call):
+    """`self.h(uid)` whose callee performs the locked test-and-remove and
+    returns whether the caller now owns the task (truthy <=> owned):
+    (with ast, locks, container) or None"""
+    if not (isinstance(call, ast.Call) and
+            isinstance(call.func, ast.Attribute) and
+            isinstance(call.func.value, ast.Name) and
+            call.func.value.id == 'self'):
+        return None
+    callee = prog.resolve_call(f, call)
+    if callee is None or callee is f:
+        return None
+    cg = cfg_of(callee)
+    rets = [n for n in cg.stmt_nodes()
+            if n.kind == 'stmt' and isinstance(n.ast, ast.Return)]
+    if not rets or any(cg.nodes[e.src] not in rets
+                       for e in cg.pred[cg.exit.id]):
+        return None
+    once = _once_bound(callee.node, callee.params)
+    by_stmt = {id(m.ast): m for m in cg.stmt_nodes()}
+    # form A: `with lock: return cont.pop(key, None) is not None`
+    if len(rets) == 1 and rets[0].ast.value is not None:
+        r = _owner_test(rets[0].ast.value, once)
+        if r is not None and r[0] == 'atomic':
+            ev = by_stmt.get(id(r[4]), rets[0]) if r[4] is not None \
+                else rets[0]
+            if ev.withs:
+                w = ev.withs[-1]
+                return (w, [unparse(i.context_expr) for i in w.items], r[2],
+                        r[1] == 'F')
+        return None
+    # form B: membership test + removal; `return False` where the arbitration
+    # is lost, `return True` after the removal
+    arbs = _arbitration(prog, callee, cg, helpers=False)
+    if not arbs:
+        return None
+    w, locks, tid, leave, cont, did = arbs[0]
+    stay = _flip(leave)
+    quiet = _noise_exc_edges(cg)
+    not_owned = cg.reachable(cg.entry.id, skip_edges=[(tid, stay)] + quiet) | \
+        cg.reachable(cg.entry.id, skip_nodes={did}, skip_edges=quiet)
+    not_lost = cg.reachable(cg.entry.id, skip_edges=[(tid, leave)] + quiet)
+    won, lost = set(), set()
+    for r in rets:
+        v = r.ast.value
+        t = True if _truthy_const(v) else False if _falsy_const(v) else None
+        if r.id not in not_owned:
+            won.add(t)
+        elif r.id not in not_lost:
+            lost.add(t)
+        else:
+            return None
+    if len(won) != 1 or len(lost) != 1 or None in won | lost or won == lost:
+        return None
+    return (w, locks, cont, won.pop())
+
+
+def _arbitration(prog, f, g, helpers=True):
+    """[(with ast, lock, test node id, leave label, container, del node id)]
+    test-and-remove on a container under a lock: a membership test followed
+    by the removal of the same key, or the atomic `cont.pop(key, None)` whose
+    result is tested (then the removal node is the node evaluating the pop).
+    The test may sit in a once-bound local; what has to be under the lock is
+    its evaluation and the removal."""
     out = []
-    smap = I.stmt_node_map(g)
+    once = _once_bound(f.node, f.params)
+    by_stmt = {id(m.ast): m for m in g.stmt_nodes()}
+    tests = []
+    for m in g.nodes:
+        if m.kind != 'test':
+            continue
+        r = _owner_test(m.ast, once)
+        if r is None:
+            if helpers:
+                # `if not self._disown(uid): return` - the locked
+                # test-and-remove lives in a helper that reports ownership
+                e, leave, stmt, d = m.ast, 'F', None, 4
+                while d:
+                    d -= 1
+                    if isinstance(e, ast.UnaryOp) and \
+                            isinstance(e.op, ast.Not):
+                        e, leave = e.operand, _flip(leave)
+                    elif isinstance(e, ast.Compare) and len(e.ops) == 1 and \
+                            isinstance(e.comparators[0], ast.Constant) and \
+                            isinstance(e.comparators[0].value, bool) and \
+                            isinstance(e.ops[0], (ast.Is, ast.IsNot, ast.Eq,
+                                                  ast.NotEq)):
+                        same = e.comparators[0].value == isinstance(
+                            e.ops[0], (ast.Is, ast.Eq))
+                        e, leave = e.left, leave if same else _flip(leave)
+                    elif isinstance(e, ast.Name) and e.id in once:
+                        e, stmt = once[e.id]
+                    else:
+                        break
+                h = _disown_helper(prog, f, e)
+                if h is not None:
+                    if not h[3]:            # helper says True when lost
+                        leave = _flip(leave)
+                    ev = by_stmt.get(id(stmt), m) if stmt is not None else m
+                    out.append((h[0], h[1], m.id, leave, h[2], ev.id))
+            continue
+        kind, leave, cont, key, stmt = r
+        ev = by_stmt.get(id(stmt), m) if stmt is not None else m
+        tests.append((m.id, kind, leave, cont, key, ev))
     for n in g.nodes:
         if n.kind != 'with':
             continue
         locks = [unparse(i.context_expr) for i in n.ast.items]
         inner = [m for m in g.nodes if n.ast in m.withs]
-        tests = []
         dels = []
         for m in inner:
-            if m.kind == 'test' and isinstance(m.ast, ast.Compare) and \
-                    len(m.ast.ops) == 1 and \
-                    isinstance(m.ast.ops[0], (ast.In, ast.NotIn)):
-                cont = unparse(m.ast.comparators[0])
-                leave = 'T' if isinstance(m.ast.ops[0], ast.NotIn) else 'F'
-                tests.append((m.id, leave, cont, unparse(m.ast.left)))
             if m.kind == 'stmt' and isinstance(m.ast, ast.Delete):
                 for t in m.ast.targets:
                     if isinstance(t, ast.Subscript):
@@ -457,10 +682,48 @@ def _arbitration(prog, f, g):
                             c.func.attr == 'pop' and c.args:
                         dels.append((m.id, unparse(c.func.value),
                                      unparse(c.args[0])))
-        for tid, leave, cont, key in tests:
+        for tid, kind, leave, cont, key, ev in tests:
+            if n.ast not in ev.withs:
+                continue
+            if kind == 'atomic':
+                out.append((n, locks, tid, leave, cont, ev.id))
+                continue
             for did, dcont, dkey in dels:
                 if cont == dcont and key == dkey:
                     out.append((n, locks, tid, leave, cont, did))
+    return out
+
+
+_NOISE = ('self._log.', 'self._prof.', 'self._rep.')
+
+
+def _plain(e):
+    """expression whose evaluation cannot raise: constant, name, self.attr
+    chain, or a tuple / list of those"""
+    if isinstance(e, (ast.Constant, ast.Name)):
+        return True
+    if isinstance(e, ast.Attribute):
+        return _plain(e.value)
+    if isinstance(e, (ast.Tuple, ast.List)):
+        return all(_plain(x) for x in e.elts)
+    return False
+
+
+def _noise_exc_edges(g):
+    """exception edges leaving statements which only log / profile with plain
+    arguments: loggers and profilers are trusted not to raise, so such an edge
+    (e.g. into the KeyError handler around the removal) is not a real path"""
+    out = []
+    for n in g.nodes:
+        if n.kind != 'stmt' or not isinstance(n.ast, ast.Expr) or \
+                not isinstance(n.ast.value, ast.Call):
+            continue
+        c = n.ast.value
+        if not call_name(c).startswith(_NOISE):
+            continue
+        if all(_plain(a) for a in c.args) and \
+                all(_plain(k.value) for k in c.keywords):
+            out += [e for e in g.succ[n.id] if e.label == 'exc']
     return out
 
 
@@ -508,13 +771,16 @@ def r07_2(prog, rep, rid='R07.2'):
             continue
         w, locks, tid, leave, cont, did = arbs[0]
         found[mname] = (tuple(locks), cont)
+        quiet = _noise_exc_edges(g)
         for c in effects:
             en = smap[id(c)]
             start = loop_slice(g, en.loops[-1])[0] if en.loops else g.entry.id
             stay = 'F' if leave == 'T' else 'T'
             # must take the "uid is registered" edge and pass the removal
-            r1 = g.reachable(start, skip_edges=[(tid, stay)], no_back=True)
-            r2 = g.reachable(start, skip_nodes={did}, no_back=True)
+            r1 = g.reachable(start, skip_edges=[(tid, stay)] + quiet,
+                             no_back=True)
+            r2 = g.reachable(start, skip_nodes={did}, skip_edges=quiet,
+                             no_back=True)
             okay = en.id not in r1 and en.id not in r2
             rep.check(okay, rid, f, 'Popen.%s: `%s` is reached only after the '
                       'locked test-and-remove on %s' % (mname, short(c, 40),
@@ -631,17 +897,11 @@ def r07_4(prog, rep, rid='R07.4'):
               history='the watcher thread picks the task up between put() '
               'and spawn: it is removed from the watch list and stays in '
               'AGENT_EXECUTING forever')
-    checks = [n for n in g.nodes if n.kind == 'test' and any(
-        call_name(c) == 'self.is_canceled' for c in calls_in(n.ast))]
+    cmap = cancel_checks(f, g, var)
+    checks = [g.nodes[nid] for nid in sorted(cmap)]
     okc = False
     for n in checks:
-        truth = True
-        a = n.ast
-        if isinstance(a, ast.Compare) and len(a.ops) == 1 and \
-                isinstance(a.comparators[0], ast.Constant):
-            truth = bool(a.comparators[0].value) == isinstance(
-                a.ops[0], (ast.Is, ast.Eq))
-        lab = 'T' if truth else 'F'
+        lab = cmap[n.id][0]
         for e in g.succ[n.id]:
             if e.label == lab:
                 r = g.reachable(e.dst)
@@ -657,13 +917,390 @@ def r07_4(prog, rep, rid='R07.4'):
               history='cancel arrives while the launch script is written: '
               'the cancel handler finds no process, the task then runs to '
               'completion')
-    rep.check(bool(checks) and all(must_pass(g, g.entry.id, n.id, procs)
-                                   for n in checks), rid, f,
+    rep.check(bool(checks) and all(
+        must_pass(g, g.entry.id, cmap[n.id][1], procs) for n in checks),
+              rid, f,
               'the late cancel check comes after the spawn',
               construct='check-after-spawn',
               message='the is_canceled() check in _launch_task is evaluated '
               'before the process is spawned: a request arriving in between '
               'is lost', loc=f.loc())
+
+
+# ------------------------------------------------------------------------------
+# R07.6  a spawned task is always given to the watcher
+#
+# Why the watcher and not cancel_task: Popen.cancel_task finishes a task only
+# if its process is still alive and the arbitration is won; for a process that
+# has already exited it returns ("already done") and leaves the collection to
+# the watcher.  The cancel handler reaches a task through the registry and
+# task['proc'], never through the watch queue, so the order of the late cancel
+# check and the put does not matter - but after the spawn there must be no
+# normal return on which the put was skipped.
+#
+def _watch_queues(prog, popen):
+    """the queue(s) the watcher thread drains: self.X.get_nowait() / .get()
+    inside Popen._watch"""
+    fw = prog.method(POPEN[0], POPEN[1], '_watch')
+    qs = set()
+    for c in calls_in(fw.node):
+        if isinstance(c.func, ast.Attribute) and \
+                c.func.attr in ('get', 'get_nowait') and \
+                dotted(c.func.value).startswith('self.'):
+            qs.add(dotted(c.func.value))
+    if not qs:
+        raise AnalysisError('UNRECOGNISED-IDIOM %s: the watcher does not drain '
+                            'a self.<queue>' % fw.where)
+    return qs
+
+
+def _queue_of(c, values):
+    """'self.X' the put/get call `c` works on (a local that only ever holds
+    self.X counts as self.X); '' if it is not a put"""
+    if not (isinstance(c.func, ast.Attribute) and
+            c.func.attr in ('put', 'put_nowait')):
+        return ''
+    v = c.func.value
+    if isinstance(v, ast.Name) and values is not None:
+        vals = {dotted(x) for x in values.get(v.id, [])}
+        if len(vals) == 1:
+            return vals.pop()
+    return dotted(v)
+
+
+def _is_watch_put(c, queues, var, values=None):
+    return _queue_of(c, values) in queues and bool(c.args) and \
+        isinstance(c.args[0], ast.Name) and c.args[0].id == var
+
+
+def _callee_always_puts(prog, f, c, popen, queues, var):
+    """`self.helper(.., var, ..)` whose body puts that parameter on the watch
+    queue on every normal path"""
+    if not (isinstance(c.func, ast.Attribute) and
+            isinstance(c.func.value, ast.Name) and c.func.value.id == 'self'):
+        return False
+    pos = [i for i, a in enumerate(c.args)
+           if isinstance(a, ast.Name) and a.id == var]
+    kws = [k.arg for k in c.keywords
+           if isinstance(k.value, ast.Name) and k.value.id == var]
+    if not pos and not kws:
+        return False
+    callee = prog.resolve_call(f, c, popen)
+    if callee is None or callee is f:
+        return False
+    params = [p for p in callee.params if p != 'self']
+    if pos and pos[0] < len(params):
+        pv = params[pos[0]]
+    elif kws and kws[0] in params:
+        pv = kws[0]
+    else:
+        return False
+    cg = cfg_of(callee)
+    cputs = [n.id for n in cg.stmt_nodes()
+             if any(_is_watch_put(x, queues, pv) for x in I.stmt_calls(n))]
+    return bool(cputs) and must_pass(cg, cg.entry.id, cg.exit.id, cputs)
+
+
+def _local_values(fnode):
+    """local name -> [value expressions assigned to it]"""
+    out = {}
+    for n in walk(fnode):
+        if isinstance(n, ast.Assign):
+            for t in n.targets:
+                if isinstance(t, ast.Name):
+                    out.setdefault(t.id, []).append(n.value)
+        elif isinstance(n, ast.NamedExpr) and isinstance(n.target, ast.Name):
+            out.setdefault(n.target.id, []).append(n.value)
+    return out
+
+
+def _expanded(expr, values):
+    """expr and the values of the local names it reads (transitively)"""
+    seen = set()
+    todo = [expr]
+    out = []
+    while todo:
+        e = todo.pop()
+        out.append(e)
+        for n in walk(e, nested=True):
+            if isinstance(n, ast.Name) and n.id not in seen:
+                seen.add(n.id)
+                todo += values.get(n.id, [])
+    return out
+
+
+def _knows_process_fate(test, values, var, registry):
+    """the test reads the process handle / its exit status, the registry of
+    owned tasks, or what cancel_task returned: whether the task still needs
+    the watcher on that branch cannot be decided from the shape alone"""
+    for e in _expanded(test, values):
+        for n in walk(e, nested=True):
+            if isinstance(n, ast.Constant) and n.value == 'proc':
+                return 'the process handle'
+            if isinstance(n, ast.Attribute) and \
+                    n.attr in ('poll', 'wait', 'returncode', 'pid'):
+                return 'the process state'
+            if isinstance(n, ast.Attribute) and dotted(n) == registry:
+                return 'the task registry'
+            if isinstance(n, ast.Call) and \
+                    call_name(n) in ('self.cancel_task', 'sp.Popen',
+                                     'subprocess.Popen'):
+                return 'the result of %s' % call_name(n)
+    return None
+
+
+def r07_6(prog, rep, rid='R07.6'):
+    rep.rule(rid, 'once the process is spawned, every normal return of the '
+             'launch has given the task to the watcher (cancel_task does not '
+             'finish a task whose process already exited)', minimum=1)
+    popen = prog.cls(*POPEN)
+    f = prog.method(POPEN[0], POPEN[1], '_launch_task')
+    rep.saw(f)
+    g = cfg_of(f)
+    var = [p for p in f.params if p != 'self'][0]
+    queues = _watch_queues(prog, popen)
+    procs = [n.id for n in g.stmt_nodes() if n.kind == 'stmt' and
+             isinstance(n.ast, ast.Assign) and any(
+                 isinstance(t, ast.Subscript) and
+                 isinstance(t.slice, ast.Constant) and t.slice.value == 'proc'
+                 and root_name(t) == var for t in n.ast.targets)]
+    if not procs:
+        raise AnalysisError("UNRECOGNISED-IDIOM %s: task['proc'] is never "
+                            'assigned' % f.where)
+    puts = set()
+    anyput = False
+    values = _local_values(f.node)
+    for n in g.stmt_nodes():
+        for c in I.stmt_calls(n):
+            if _queue_of(c, values) in queues:
+                anyput = True
+            if _is_watch_put(c, queues, var, values) or \
+                    _callee_always_puts(prog, f, c, popen, queues, var):
+                puts.add(n.id)
+    if anyput and not puts:
+        raise AnalysisError('UNRECOGNISED-IDIOM %s: something other than the '
+                            'task parameter is put on %s'
+                            % (f.where, sorted(queues)))
+    # does cancel_task have a way to return without finishing the task?
+    fc = prog.method(POPEN[0], POPEN[1], 'cancel_task')
+    gc = cfg_of(fc)
+    cvar = [p for p in fc.params if p != 'self'][0]
+    exc = pair_states(prog, fc, gc, gc.entry.id, cvar)
+    cancel_may_return_idle = any(
+        t.node == gc.exit.id and t.state[:2] == (0, 0) for t in exc.terminals)
+    arbs = _arbitration(prog, fc, gc)
+    registry = arbs[0][4] if arbs else 'self._tasks'
+
+    # paths entry -> spawn -> normal exit on which no put happens
+    before = g.reachable(g.entry.id, skip_nodes=puts)
+    starts = [e.dst for p in procs if p in before
+              for e in g.succ[p] if e.label != 'exc']
+    fwd = g.reachable(starts, skip_nodes=puts) if starts else set()
+    if g.exit.id not in fwd:
+        rep.ok(rid, f, 'every path from the spawn to a normal return of '
+               '_launch_task puts the task on %s' % sorted(queues)[0], f.loc())
+        return
+    region = [n for n in fwd
+              if g.exit.id in g.reachable(n, skip_nodes=puts)]
+    for nid in region:
+        n = g.nodes[nid]
+        if n.kind == 'test':
+            why = _knows_process_fate(n.ast, values, var, registry)
+            if why:
+                raise AnalysisError(
+                    'UNRECOGNISED-IDIOM %s: a return without the watch-queue '
+                    'put is guarded by `%s`, which reads %s: cannot decide '
+                    'from the shape whether the task is finished on that '
+                    'branch' % (f.where, short(n.ast, 50), why))
+    via_cancel = [c for nid in region for c in I.stmt_calls(g.nodes[nid])
+                  if call_name(c) == 'self.cancel_task']
+    via_check = [c for nid in region for c in I.stmt_calls(g.nodes[nid])
+                 if call_name(c) == 'self.is_canceled']
+    if via_cancel and not cancel_may_return_idle:
+        # a cancel_task that finishes the task on every path: the put-free
+        # return after it is covered by R07.1 / R07.2, not by this rule
+        others = g.reachable(starts, skip_nodes=puts | {
+            nid for nid in region for c in I.stmt_calls(g.nodes[nid])
+            if call_name(c) == 'self.cancel_task'})
+        if g.exit.id not in others:
+            rep.ok(rid, f, 'a return without the watch-queue put happens only '
+                   'after cancel_task, which finishes the task on every path',
+                   f.loc())
+            return
+        via_cancel = []
+    if via_cancel:
+        msg = ('Popen._launch_task can return after the spawn without putting '
+               'the task on the watch queue: the path goes through `%s`, but '
+               'Popen.cancel_task returns without finishing the task when the '
+               'process has already exited ("already done" - it relies on the '
+               'watcher). On that path nobody ever collects the task: no '
+               'unschedule publication, no hand-on, the uid stays in %s'
+               % (short(via_cancel[0], 40), registry))
+        hist = ('a cancel request for the uid arrives after the intake filter '
+                'but before task[\'proc\'] exists (control_cb -> cancel_task: '
+                '"not started"); the process is spawned and exits at once '
+                '(short task / failing launch script) before the late '
+                'is_canceled() check; is_canceled() returns True and consumes '
+                'the request, cancel_task() sees poll() is not None and '
+                'returns; _launch_task returns without the watch-queue put: '
+                'the task stays in AGENT_EXECUTING, its slots are never '
+                'released')
+    else:
+        msg = ('Popen._launch_task can return after the spawn without putting '
+               'the task on the watch queue%s: the watcher never learns about '
+               'the process, so the task is never collected - no unschedule '
+               'publication, no hand-on, the uid stays in %s'
+               % (' (on a branch of the late is_canceled() check)'
+                  if via_check else '', registry))
+        hist = ('a task taking that branch is spawned and runs to completion; '
+                '_check_running never sees it: it stays in AGENT_EXECUTING and '
+                'its slots are never released')
+    loc_node = via_cancel[0] if via_cancel else (
+        via_check[0] if via_check else None)
+    rep.bad(rid, f, 'spawned-but-not-watched', msg,
+            f.loc(loc_node) if loc_node is not None else f.loc(), history=hist)
+
+
+# ------------------------------------------------------------------------------
+# R07.7  whoever takes a task out of the registry finishes it
+#
+# The registry decides who finishes a running task: the contender that removes
+# the uid under the lock owns the task, the other one skips it ("not in
+# self._tasks: nothing to do").  A return without finishing is fine before
+# the removal (not started / already exited / arbitration lost) - after it
+# nobody else will ever touch the task.
+#
+def _finish_list(f):
+    """name of the list the watcher collects finished tasks in (the thing it
+    hands on) and the calls appending to it"""
+    lst = None
+    for c in calls_in(f.node):
+        if _is_hand(c) and isinstance(I.handon_thing(c), ast.Name):
+            lst = I.handon_thing(c).id
+    apps = [c for c in calls_in(f.node)
+            if isinstance(c.func, ast.Attribute) and c.func.attr == 'append'
+            and isinstance(c.func.value, ast.Name) and c.func.value.id == lst]
+    return lst, apps
+
+
+def _lost_edges(g, arbs):
+    """the edges on which the arbitration is lost (uid not registered): with
+    the atomic pop form the removal precedes its test, so these have to be
+    cut explicitly"""
+    return {(e.src, e.dst, e.label) for a in arbs for e in g.succ[a[2]]
+            if e.label == a[3]}
+
+
+def r07_7(prog, rep, rid='R07.7'):
+    rep.rule(rid, 'after a contender has removed the uid from the registry '
+             'under the lock (ownership taken), every normal way out finishes '
+             'the task: cancel_task publishes + hands on, the watcher collects '
+             'it for the bulk finish', minimum=2)
+    popen = prog.cls(*POPEN)
+    # (a) cancel_task
+    f = prog.method(POPEN[0], POPEN[1], 'cancel_task')
+    rep.saw(f)
+    g = cfg_of(f)
+    var = [p for p in f.params if p != 'self'][0]
+    arbs = _arbitration(prog, f, g)
+    if not arbs:
+        raise AnalysisError('UNRECOGNISED-IDIOM %s: no locked test-and-remove '
+                            'on the task registry (see R07.2)' % f.where)
+    quiet = {(e.src, e.dst, e.label) for e in _noise_exc_edges(g)}
+    quiet |= _lost_edges(g, arbs)
+    cont = arbs[0][4]
+    bad = None
+    for did in sorted({a[5] for a in arbs}):
+        ex = pair_states(prog, f, g, did, var, count_is_canceled=False,
+                         skip=quiet)
+        rep.stat('paths_enumerated', ex.states)
+        for t in ex.terminals:
+            if t.node != g.exit.id:
+                continue
+            p, h, ts = t.state
+            if p == 0 or h == 0:
+                bad = (ex, t, p, h)
+    if bad:
+        ex, t, p, h = bad
+        lits = ex.literals(t)
+        rep.bad(rid, f, 'cancel_task:owned-but-not-finished',
+                'Popen.cancel_task can return after it has removed the uid '
+                'from %s under the lock with %d unschedule publication(s) and '
+                '%d hand-on(s)%s: it has won the arbitration, so the watcher '
+                'skips the task ("not in %s: canceled before, nothing to '
+                'do") - nobody ever finishes it, its cores are never released'
+                % (cont, p, h, ' (path: %s)' % '; '.join(lits[-3:])
+                   if lits else '', cont), f.loc(),
+                history='cancel request (or run-time limit) for a running '
+                'task: the first poll() says "alive", cancel_task takes the '
+                'uid out of the registry; the process exits / the kill fails '
+                'in that window and cancel_task returns early; _check_running '
+                'sees the exit code but skips the uid: no unschedule '
+                'publication, no hand-on, the task stays in AGENT_EXECUTING',
+                path=lits[-6:])
+    else:
+        rep.ok(rid, f, 'Popen.cancel_task: every normal return after the '
+               'removal from %s has published the unschedule request and '
+               'handed the task on' % cont, f.loc())
+    # (b) the watcher, per task
+    f = prog.method(POPEN[0], POPEN[1], '_check_running')
+    rep.saw(f)
+    g = cfg_of(f)
+    smap = I.stmt_node_map(g)
+    arbs = _arbitration(prog, f, g)
+    if not arbs:
+        raise AnalysisError('UNRECOGNISED-IDIOM %s: no locked test-and-remove '
+                            'on the task registry (see R07.2)' % f.where)
+    lst, apps = _finish_list(f)
+    if not apps:
+        raise AnalysisError('UNRECOGNISED-IDIOM %s: finished tasks are not '
+                            'collected into the list handed on' % f.where)
+    appn = {smap[id(c)].id for c in apps}
+    quiet = {(e.src, e.dst, e.label) for e in _noise_exc_edges(g)}
+    quiet |= _lost_edges(g, arbs)
+    cont = arbs[0][4]
+    bad = None
+    for did in sorted({a[5] for a in arbs}):
+        dn = g.nodes[did]
+        if not dn.loops:
+            raise AnalysisError('UNRECOGNISED-IDIOM %s: the removal from %s '
+                                'is not inside the per-task loop'
+                                % (f.where, cont))
+        start, stop, stop_edge = loop_slice(g, dn.loops[-1])
+
+        def transfer(node, edge, st):
+            if (edge.src, edge.dst, edge.label) in quiet:
+                return None
+            if edge.label != 'exc' and node.id in appn:
+                return True
+            return st
+        ex = Exploration(g, did, False, transfer, stop=stop,
+                         stop_edge=stop_edge)
+        rep.stat('paths_enumerated', ex.states)
+        for t in ex.terminals:
+            if t.node == g.raise_.id:
+                continue
+            if not t.state:
+                bad = (ex, t)
+    if bad:
+        ex, t = bad
+        lits = ex.literals(t)
+        rep.bad(rid, f, '_check_running:owned-but-not-collected',
+                'Popen._check_running can leave the iteration for a task '
+                'after it has removed the uid from %s under the lock without '
+                'appending the task to %s%s: the watcher owns the task (cancel '
+                'and timeout now skip it) but never publishes the unschedule '
+                'request nor hands it on' % (
+                    cont, lst, ' (path: %s)' % '; '.join(lits[-3:])
+                    if lits else ''), f.loc(),
+                history='a process exits: the watcher reaps it, drops it from '
+                'its watch list and from the registry, and then skips it: the '
+                'task stays in AGENT_EXECUTING and keeps its slots forever',
+                path=lits[-6:])
+    else:
+        rep.ok(rid, f, 'Popen._check_running: every way out of the iteration '
+               'after the removal from %s has collected the task in %s'
+               % (cont, lst), f.loc())
 
 
 def r07_5(prog, rep, rid='R07.5'):
@@ -699,7 +1336,11 @@ def run(prog, rep, tier):
         'test-and-remove on the same registry with the same lock; '
         'registration precedes launch; AGENT_EXECUTING announced once per '
         'bulk; process handle before watch queue and before the late cancel '
-        'check; the timeout watcher goes through cancel_task.')
+        'check; every normal return after the spawn has put the task on the '
+        'queue the watcher drains; after the removal from the registry '
+        'every normal way out of cancel_task / of the watcher iteration '
+        'finishes / collects the task; the timeout watcher goes through '
+        'cancel_task.')
     rep.undecided = ('real thread schedules (the argument is lock discipline '
         'plus single removal); Flux and Dragon executors are out of scope.')
     rep.assumptions = [
@@ -713,12 +1354,20 @@ def run(prog, rep, tier):
     rep.attempt(r07_3, prog, rep)
     rep.attempt(r07_4, prog, rep)
     rep.attempt(r07_5, prog, rep)
+    rep.attempt(r07_6, prog, rep)
+    rep.attempt(r07_7, prog, rep)
 
 
 # ------------------------------------------------------------------------------
 _P = 'agent/executing/popen.py'
 _N = 'agent/executing/noop.py'
 _E = 'agent/executing/base.py'
+
+_TAIL = "        self.handle_timeout(task)\n\n        # watch task for completion\n        self._watch_queue.put(task)\n\n        # now that the task cancellation cb would succeed, let's make sure that\n        # no cancellation request sneaked in before the task got started\n        if self.is_canceled(task) is True:\n            self.cancel_task(task)\n"
+
+_KILL = "        launcher = self._rm.get_launcher(task['launcher_name'])\n        launcher.cancel_task(task, proc.pid)\n"
+_LOCKC = '        with self._check_lock:\n            if tid not in self._tasks:\n                return\n'
+_APP = "                tasks_to_advance.append(task)\n\n                self._prof.prof('unschedule_start', uid=tid)\n"
 
 MUTATIONS = [
     dict(name='R07.1 cancel_task does not unschedule', rules=('R07.1',), edits=[
@@ -774,6 +1423,46 @@ MUTATIONS = [
     dict(name='R07.4 cancel check before the spawn', rules=('R07.4',), edits=[
         (_P, "        if self.is_canceled(task) is True:\n            self.cancel_task(task)\n", ""),
         (_P, "        self._prof.prof('task_run_start', uid=tid)\n", "        if self.is_canceled(task) is True:\n            self.cancel_task(task)\n        self._prof.prof('task_run_start', uid=tid)\n")]),
+    dict(name='R07.6 late cancel check returns before the task is watched (C07-c)', rules=('R07.6',), edits=[
+        (_P, _TAIL, "        if self.is_canceled(task) is True:\n            self.cancel_task(task)\n            return\n\n        self.handle_timeout(task)\n        self._watch_queue.put(task)\n")]),
+    dict(name='R07.6 canceled tasks are not watched (if/else form)', rules=('R07.6',), edits=[
+        (_P, _TAIL, "        if self.is_canceled(task) is True:\n            self.cancel_task(task)\n        else:\n            self.handle_timeout(task)\n            self._watch_queue.put(task)\n")]),
+    dict(name='R07.6 return cancel_task(...) in front of the put', rules=('R07.6',), edits=[
+        (_P, _TAIL, "        if self.is_canceled(task):\n            return self.cancel_task(task)\n        self._watch_queue.put(task)\n        self.handle_timeout(task)\n")]),
+    dict(name='R07.6 only tasks with a run-time limit are watched', rules=('R07.6',), edits=[
+        (_P, _TAIL, "        self.handle_timeout(task)\n\n        if task['description'].get('timeout'):\n            self._watch_queue.put(task)\n\n        if self.is_canceled(task) is True:\n            self.cancel_task(task)\n")]),
+    dict(name='R07.6 extracted helper watches only when not canceled', rules=('R07.6',), edits=[
+        (_P, _TAIL, "        self._watch_unless_canceled(task)\n\n    def _watch_unless_canceled(self, task):\n        if self.is_canceled(task) is True:\n            self.cancel_task(task)\n            return\n        self.handle_timeout(task)\n        self._watch_queue.put(task)\n")]),
+    dict(name='R07.7 cancel_task re-polls after the removal and walks away (C03-f)', rules=('R07.7',), edits=[
+        (_P, _KILL, "        if proc.poll() is not None:\n            self._log.debug('task %s completed before cancel', tid)\n            return\n\n" + _KILL)]),
+    dict(name='R07.7 cancel_task gives up when the kill fails', rules=('R07.7',), edits=[
+        (_P, _KILL, "        launcher = self._rm.get_launcher(task['launcher_name'])\n        try:\n            launcher.cancel_task(task, proc.pid)\n        except Exception:\n            self._log.exception('cancel failed')\n            return\n")]),
+    dict(name='R07.7 cancel_task: no launcher, nothing to kill, return', rules=('R07.7',), edits=[
+        (_P, _KILL, "        launcher = self._rm.get_launcher(task['launcher_name'])\n        if not launcher:\n            return\n        launcher.cancel_task(task, proc.pid)\n")]),
+    dict(name='R07.7 watcher skips a task after taking it out of the registry', rules=('R07.7',), edits=[
+        (_P, _APP, "                if task.get('target_state'):\n                    # outcome already decided elsewhere\n                    continue\n\n" + _APP)]),
+    dict(name='R07.7 watcher collects only clean exits', rules=('R07.7',), edits=[
+        (_P, _APP, "                if exit_code == 0:\n                    tasks_to_advance.append(task)\n\n                self._prof.prof('unschedule_start', uid=tid)\n")]),
+    dict(name='R07.2 atomic pop form with flipped polarity in the watcher', rules=('R07.2',), edits=[
+        (_P, "                with self._check_lock:\n                    if tid not in self._tasks:\n                        # task was canceled before, nothing to do\n                        continue\n                    try:\n                        del self._tasks[tid]\n                    except KeyError:\n                        pass\n", "                with self._check_lock:\n                    if self._tasks.pop(tid, None) is not None:\n                        continue\n")]),
+    dict(name='R07.7 atomic pop form, cancel_task re-polls after it', rules=('R07.7',), edits=[
+        (_P, "        with self._check_lock:\n            if tid not in self._tasks:\n                return\n            try:\n                del self._tasks[tid]\n            except KeyError:\n                pass\n", "        with self._check_lock:\n            if self._tasks.pop(tid, None) is None:\n                return\n        if proc.poll() is not None:\n            return\n")]),
+    dict(name='R07.2 _disown() helper used with the wrong polarity by the watcher', rules=('R07.2',), edits=[
+        (_P, "    def cancel_task(self, task):\n", "    def _disown(self, tid):\n        with self._check_lock:\n            return self._tasks.pop(tid, None) is not None\n\n    def cancel_task(self, task):\n"),
+        (_P, "        with self._check_lock:\n            if tid not in self._tasks:\n                return\n            try:\n                del self._tasks[tid]\n            except KeyError:\n                pass\n", "        if not self._disown(tid):\n            return\n"),
+        (_P, "                with self._check_lock:\n                    if tid not in self._tasks:\n                        # task was canceled before, nothing to do\n                        continue\n                    try:\n                        del self._tasks[tid]\n                    except KeyError:\n                        pass\n", "                if self._disown(tid):\n                    continue\n")]),
+    dict(name='R07.7 _disown() helper, then cancel_task walks away', rules=('R07.7',), edits=[
+        (_P, "    def cancel_task(self, task):\n", "    def _disown(self, tid):\n        with self._check_lock:\n            return self._tasks.pop(tid, None) is not None\n\n    def cancel_task(self, task):\n"),
+        (_P, "        with self._check_lock:\n            if tid not in self._tasks:\n                return\n            try:\n                del self._tasks[tid]\n            except KeyError:\n                pass\n", "        if not self._disown(tid):\n            return\n        if proc.poll() is not None:\n            return\n"),
+        (_P, "                with self._check_lock:\n                    if tid not in self._tasks:\n                        # task was canceled before, nothing to do\n                        continue\n                    try:\n                        del self._tasks[tid]\n                    except KeyError:\n                        pass\n", "                if not self._disown(tid):\n                    continue\n")]),
+    dict(name='R07.2 _is_gone() helper used as if it meant "mine"', rules=('R07.2',), edits=[
+        (_P, "    def cancel_task(self, task):\n", "    def _is_gone(self, tid):\n        with self._check_lock:\n            if tid in self._tasks:\n                self._tasks.pop(tid)\n                return False\n        return True\n\n    def cancel_task(self, task):\n"),
+        (_P, "        with self._check_lock:\n            if tid not in self._tasks:\n                return\n            try:\n                del self._tasks[tid]\n            except KeyError:\n                pass\n", "        if self._is_gone(tid):\n            return\n"),
+        (_P, "                with self._check_lock:\n                    if tid not in self._tasks:\n                        # task was canceled before, nothing to do\n                        continue\n                    try:\n                        del self._tasks[tid]\n                    except KeyError:\n                        pass\n", "                if not self._is_gone(tid):\n                    continue\n")]),
+    dict(name='R07.2 helper removes the uid without the lock', rules=('R07.2',), edits=[
+        (_P, "    def cancel_task(self, task):\n", "    def _disown_task(self, tid):\n        if True:\n            if tid not in self._tasks:\n                return False\n            try:\n                self._log.debug('disown %s', tid)\n                del self._tasks[tid]\n            except KeyError:\n                pass\n            return True\n\n    def cancel_task(self, task):\n"),
+        (_P, "        with self._check_lock:\n            if tid not in self._tasks:\n                return\n            try:\n                del self._tasks[tid]\n            except KeyError:\n                pass\n", "        if not self._disown_task(tid):\n            return\n"),
+        (_P, "                with self._check_lock:\n                    if tid not in self._tasks:\n                        # task was canceled before, nothing to do\n                        continue\n                    try:\n                        del self._tasks[tid]\n                    except KeyError:\n                        pass\n", "                if not self._disown_task(tid):\n                    continue\n")]),
     dict(name='R07.5 timeout watcher finishes the task itself', rules=('R07.5',), edits=[
         (_E, "                        self.cancel_task(task=task)\n", "                        self.publish(rpc.AGENT_UNSCHEDULE_PUBSUB, task)\n                        self.advance(task, rps.CANCELED, publish=True, push=False)\n")]),
 ]
@@ -793,4 +1482,53 @@ SILENT = [
         (_P, "                self._prof.prof('unschedule_start', uid=tid)\n\n                if exit_code == 0:", "                self._prof.prof('unschedule_start', uid=tid)\n                task['exit_code'] = exit_code\n\n                if exit_code == 0:")]),
     dict(name='late cancel check without `is True`', edits=[
         (_P, "        if self.is_canceled(task) is True:\n            self.cancel_task(task)\n", "        if self.is_canceled(task):\n            self.cancel_task(task)\n")]),
+    dict(name='late cancel check before the watch-queue put, falling through', edits=[
+        (_P, _TAIL, "        if self.is_canceled(task) is True:\n            self.cancel_task(task)\n\n        self.handle_timeout(task)\n        self._watch_queue.put(task)\n")]),
+    dict(name='late cancel check in early-return form after the put', edits=[
+        (_P, _TAIL, "        self.handle_timeout(task)\n        self._watch_queue.put(task)\n\n        if self.is_canceled(task) is not True:\n            return\n        self.cancel_task(task)\n")]),
+    dict(name='watch-queue put before the timeout registration', edits=[
+        (_P, _TAIL, "        self._watch_queue.put(task)\n        self.handle_timeout(task)\n\n        if self.is_canceled(task) is True:\n            self.cancel_task(task)\n")]),
+    dict(name='canceled branch watches, cancels and returns; put in both branches', edits=[
+        (_P, _TAIL, "        if self.is_canceled(task) is True:\n            self._watch_queue.put(task)\n            self.cancel_task(task)\n            return\n\n        self.handle_timeout(task)\n        self._watch_queue.put(task)\n")]),
+    dict(name='timeout registration and put extracted into a helper', edits=[
+        (_P, _TAIL, "        self._start_watching(task)\n\n        if self.is_canceled(task) is True:\n            self.cancel_task(task)\n\n    def _start_watching(self, task):\n        self.handle_timeout(task)\n        self._watch_queue.put(task)\n")]),
+    dict(name='watch queue cached in a local', edits=[
+        (_P, _TAIL, "        wq = self._watch_queue\n        self.handle_timeout(task)\n        wq.put(task)\n\n        if self.is_canceled(task) is True:\n            self.cancel_task(task)\n")]),
+    dict(name='log / profile lines inside both lock regions and around the removal', edits=[
+        (_P, "        with self._check_lock:\n            if tid not in self._tasks:\n                return\n            try:\n                del self._tasks[tid]\n            except KeyError:\n                pass\n", "        with self._check_lock:\n            self._log.debug('cancel: arbitrate %s', tid)\n            if tid not in self._tasks:\n                self._log.debug('cancel: lost')\n                return\n            try:\n                self._prof.prof('cancel_disown', uid=tid)\n                del self._tasks[tid]\n            except KeyError:\n                self._log.debug('cancel: gone')\n                pass\n            self._log.debug('cancel: owns %s', tid)\n"),
+        (_P, "                with self._check_lock:\n                    if tid not in self._tasks:\n                        # task was canceled before, nothing to do\n                        continue\n                    try:\n                        del self._tasks[tid]\n                    except KeyError:\n                        pass\n", "                with self._check_lock:\n                    self._log.debug('watch: arbitrate %s', tid)\n                    if tid not in self._tasks:\n                        self._log.debug('watch: lost')\n                        continue\n                    try:\n                        self._log.debug('watch: disown')\n                        del self._tasks[tid]\n                    except KeyError:\n                        self._prof.prof('watch_gone', uid=tid)\n                        pass\n                    self._log.debug('watch: owns %s', tid)\n")]),
+    dict(name='second poll under the lock, before the removal', edits=[
+        (_P, _LOCKC, "        with self._check_lock:\n            if proc.poll() is not None:\n                self._log.debug('task %s completed before cancel', tid)\n                return\n            if tid not in self._tasks:\n                return\n")]),
+    dict(name='outcome recorded before the kill; watcher collects after recording the outcome', edits=[
+        (_P, _KILL, "        task['exit_code']    = None\n        task['target_state'] = rps.CANCELED\n" + _KILL),
+        (_P, "        task['exit_code']    = None\n        task['target_state'] = rps.CANCELED\n\n        self._prof.prof('task_run_cancel_stop', uid=tid)\n", "        self._prof.prof('task_run_cancel_stop', uid=tid)\n"),
+        (_P, _APP, "                self._prof.prof('unschedule_start', uid=tid)\n"),
+        (_P, "                    task['target_state']     = rps.FAILED\n", "                    task['target_state']     = rps.FAILED\n\n                tasks_to_advance.append(task)\n")]),
+    dict(name='log lines after the removal, kill wrapped in try/finally', edits=[
+        (_P, _KILL, "        self._log.debug('owning %s', tid)\n        launcher = self._rm.get_launcher(task['launcher_name'])\n        try:\n            launcher.cancel_task(task, proc.pid)\n        finally:\n            self._log.debug('kill sent to %s', tid)\n"),
+        (_P, _APP, "                self._log.debug('collect %s', tid)\n" + _APP)]),
+    dict(name='membership test hoisted into a local under the lock', edits=[
+        (_P, _LOCKC, "        with self._check_lock:\n            gone = tid not in self._tasks\n            if gone:\n                return\n")]),
+    dict(name='late cancel check hoisted into a local (bare call)', edits=[
+        (_P, "        if self.is_canceled(task) is True:\n            self.cancel_task(task)\n", "        canceled = self.is_canceled(task)\n        if canceled is True:\n            self.cancel_task(task)\n")]),
+    dict(name='late cancel check hoisted and negated, early return', edits=[
+        (_P, "        if self.is_canceled(task) is True:\n            self.cancel_task(task)\n", "        canceled = self.is_canceled(task)\n        if not canceled:\n            return\n        self.cancel_task(task)\n")]),
+    dict(name='atomic test-and-remove: pop(tid, None) under the lock in both contenders', edits=[
+        (_P, "        with self._check_lock:\n            if tid not in self._tasks:\n                return\n            try:\n                del self._tasks[tid]\n            except KeyError:\n                pass\n", "        with self._check_lock:\n            if self._tasks.pop(tid, None) is None:\n                return\n"),
+        (_P, "                with self._check_lock:\n                    if tid not in self._tasks:\n                        # task was canceled before, nothing to do\n                        continue\n                    try:\n                        del self._tasks[tid]\n                    except KeyError:\n                        pass\n", "                with self._check_lock:\n                    owned = self._tasks.pop(tid, None)\n                if not owned:\n                    continue\n")]),
+    dict(name='ownership hand-over in a _disown() helper returning a bool', edits=[
+        (_P, "    def cancel_task(self, task):\n", "    def _disown(self, tid):\n        with self._check_lock:\n            return self._tasks.pop(tid, None) is not None\n\n    def cancel_task(self, task):\n"),
+        (_P, "        with self._check_lock:\n            if tid not in self._tasks:\n                return\n            try:\n                del self._tasks[tid]\n            except KeyError:\n                pass\n", "        if not self._disown(tid):\n            return\n"),
+        (_P, "                with self._check_lock:\n                    if tid not in self._tasks:\n                        # task was canceled before, nothing to do\n                        continue\n                    try:\n                        del self._tasks[tid]\n                    except KeyError:\n                        pass\n", "                owned = self._disown(tid)\n                if not owned:\n                    continue\n")]),
+    dict(name='helper with membership test + try/del, result in a local and compared with False', edits=[
+        (_P, "    def cancel_task(self, task):\n", "    def _disown_task(self, tid):\n        with self._check_lock:\n            if tid not in self._tasks:\n                return False\n            try:\n                self._log.debug('disown %s', tid)\n                del self._tasks[tid]\n            except KeyError:\n                pass\n            return True\n\n    def cancel_task(self, task):\n"),
+        (_P, "        with self._check_lock:\n            if tid not in self._tasks:\n                return\n            try:\n                del self._tasks[tid]\n            except KeyError:\n                pass\n", "        won = self._disown_task(tid)\n        if won is False:\n            return\n"),
+        (_P, "                with self._check_lock:\n                    if tid not in self._tasks:\n                        # task was canceled before, nothing to do\n                        continue\n                    try:\n                        del self._tasks[tid]\n                    except KeyError:\n                        pass\n", "                if not self._disown_task(tid):\n                    continue\n")]),
+    dict(name='helper that answers True when the arbitration is lost', edits=[
+        (_P, "    def cancel_task(self, task):\n", "    def _is_gone(self, tid):\n        with self._check_lock:\n            if tid in self._tasks:\n                self._tasks.pop(tid)\n                return False\n        return True\n\n    def cancel_task(self, task):\n"),
+        (_P, "        with self._check_lock:\n            if tid not in self._tasks:\n                return\n            try:\n                del self._tasks[tid]\n            except KeyError:\n                pass\n", "        if self._is_gone(tid):\n            return\n"),
+        (_P, "                with self._check_lock:\n                    if tid not in self._tasks:\n                        # task was canceled before, nothing to do\n                        continue\n                    try:\n                        del self._tasks[tid]\n                    except KeyError:\n                        pass\n", "                gone = self._is_gone(tid)\n                if gone:\n                    continue\n")]),
+    dict(name='atomic pop with a sentinel default', edits=[
+        (_P, "        with self._check_lock:\n            if tid not in self._tasks:\n                return\n            try:\n                del self._tasks[tid]\n            except KeyError:\n                pass\n", "        with self._check_lock:\n            if self._tasks.pop(tid, _pids) is _pids:\n                return\n"),
+        (_P, "                with self._check_lock:\n                    if tid not in self._tasks:\n                        # task was canceled before, nothing to do\n                        continue\n                    try:\n                        del self._tasks[tid]\n                    except KeyError:\n                        pass\n", "                with self._check_lock:\n                    mine = self._tasks.pop(tid, _pids)\n                    if mine is _pids:\n                        continue\n")]),
 ]
